@@ -1,0 +1,88 @@
+//go:build verif
+
+package mutil
+
+// Contracts for the verifier in /verif (govc). Comment-only file.
+//
+// Abstract view of a response proxy: (wroteHeader, code, bytes). Every
+// operation is specified by what it does to the view and by the exact calls
+// it makes on the wrapped http.ResponseWriter (ghost call log).
+
+//@ track http.ResponseWriter.WriteHeader, http.ResponseWriter.Write, io.ReaderFrom.ReadFrom, basicWriter.WriteHeader, basicWriter.maybeWriteHeader
+
+//@ func (*basicWriter).WriteHeader(b, code)
+//@   props C18
+//@   arith int
+//@   modifies b.code, b.wroteHeader
+//@   requires b != nil && b.ResponseWriter != nil
+//@   ensures old(b.wroteHeader) ==> b.code == old(b.code) && b.wroteHeader && ncalls(http.ResponseWriter.WriteHeader) == old(ncalls(http.ResponseWriter.WriteHeader))
+//@   ensures !old(b.wroteHeader) ==> b.code == code && b.wroteHeader && ncalls(http.ResponseWriter.WriteHeader) == old(ncalls(http.ResponseWriter.WriteHeader)) + 1 && callarg(http.ResponseWriter.WriteHeader, old(ncalls(http.ResponseWriter.WriteHeader)), 0) == b.ResponseWriter && callarg(http.ResponseWriter.WriteHeader, old(ncalls(http.ResponseWriter.WriteHeader)), 1) == code
+
+//@ func (*basicWriter).maybeWriteHeader(b)
+//@   props C18
+//@   arith int
+//@   modifies b.code, b.wroteHeader
+//@   requires b != nil && b.ResponseWriter != nil
+//@   ensures b.wroteHeader && b.code == ite(old(b.wroteHeader), old(b.code), 200)
+//@   ensures ncalls(http.ResponseWriter.WriteHeader) == old(ncalls(http.ResponseWriter.WriteHeader)) + ite(old(b.wroteHeader), 0, 1)
+//@   ensures !old(b.wroteHeader) ==> callarg(http.ResponseWriter.WriteHeader, old(ncalls(http.ResponseWriter.WriteHeader)), 1) == 200
+
+//@ func (*basicWriter).Write(b, buf) n, err
+//@   props C18
+//@   arith int
+//@   flag noovf
+//@   flag replay mutil_view
+//@   modifies b.code, b.wroteHeader, b.bytes
+//@   requires b != nil && b.ResponseWriter != nil && b.tee == nil
+//@   ensures b.wroteHeader && b.code == ite(old(b.wroteHeader), old(b.code), 200)
+//@   ensures ncalls(http.ResponseWriter.WriteHeader) == old(ncalls(http.ResponseWriter.WriteHeader)) + ite(old(b.wroteHeader), 0, 1)
+//@   ensures ncalls(http.ResponseWriter.Write) == old(ncalls(http.ResponseWriter.Write)) + 1 && callarg(http.ResponseWriter.Write, old(ncalls(http.ResponseWriter.Write)), 0) == b.ResponseWriter && same(callarg(http.ResponseWriter.Write, old(ncalls(http.ResponseWriter.Write)), 1), buf)
+//@   ensures n == callres(http.ResponseWriter.Write, old(ncalls(http.ResponseWriter.Write)), 0) && err == callres(http.ResponseWriter.Write, old(ncalls(http.ResponseWriter.Write)), 1)
+//@   ensures b.bytes == old(b.bytes) + n
+
+//@ func (*basicWriter).Status(b) res
+//@   props C18
+//@   arith int
+//@   modifies nothing
+//@   requires b != nil
+//@   ensures res == b.code
+
+//@ func (*basicWriter).BytesWritten(b) res
+//@   props C18
+//@   arith int
+//@   modifies nothing
+//@   requires b != nil
+//@   ensures res == b.bytes
+
+//@ func (*fancyWriter).ReadFrom(f, r) n, err
+//@   props C18
+//@   arith int
+//@   flag noovf
+//@   flag replay mutil_view
+//@   requires f != nil && f.basicWriter.ResponseWriter != nil && f.basicWriter.tee == nil && implements(f.basicWriter.ResponseWriter, "io.ReaderFrom")
+//@   ensures f.basicWriter.wroteHeader && f.basicWriter.code == ite(old(f.basicWriter.wroteHeader), old(f.basicWriter.code), 200)
+//@   ensures ncalls(http.ResponseWriter.WriteHeader) == old(ncalls(http.ResponseWriter.WriteHeader)) + ite(old(f.basicWriter.wroteHeader), 0, 1)
+//@   ensures ncalls(io.ReaderFrom.ReadFrom) == old(ncalls(io.ReaderFrom.ReadFrom)) + 1 && callarg(io.ReaderFrom.ReadFrom, old(ncalls(io.ReaderFrom.ReadFrom)), 1) == r
+//@   ensures n == callres(io.ReaderFrom.ReadFrom, old(ncalls(io.ReaderFrom.ReadFrom)), 0) && err == callres(io.ReaderFrom.ReadFrom, old(ncalls(io.ReaderFrom.ReadFrom)), 1)
+//@   ensures f.basicWriter.bytes == old(f.basicWriter.bytes) + int(n)
+
+//@ func (*fancyWriter).Flush(f)
+//@   props C18
+//@   arith int
+//@   requires f != nil && implements(f.basicWriter.ResponseWriter, "net/http.Flusher")
+//@   ensures f.basicWriter.wroteHeader == old(f.basicWriter.wroteHeader) && f.basicWriter.code == old(f.basicWriter.code) && f.basicWriter.bytes == old(f.basicWriter.bytes)
+
+//@ func (*flushWriter).Flush(f)
+//@   props C18
+//@   arith int
+//@   requires f != nil && implements(f.basicWriter.ResponseWriter, "net/http.Flusher")
+//@   ensures f.basicWriter.wroteHeader == old(f.basicWriter.wroteHeader) && f.basicWriter.code == old(f.basicWriter.code) && f.basicWriter.bytes == old(f.basicWriter.bytes)
+
+//@ func WrapWriter(w) res
+//@   props C18
+//@   arith int
+//@   ensures res != nil
+//@   ensures typeis(res, "*basicWriter") ==> dyn(res, "*basicWriter").ResponseWriter == w && !dyn(res, "*basicWriter").wroteHeader && dyn(res, "*basicWriter").code == 0 && dyn(res, "*basicWriter").bytes == 0 && dyn(res, "*basicWriter").tee == nil
+//@   ensures typeis(res, "*flushWriter") ==> dyn(res, "*flushWriter").basicWriter.ResponseWriter == w && !dyn(res, "*flushWriter").basicWriter.wroteHeader && dyn(res, "*flushWriter").basicWriter.code == 0 && dyn(res, "*flushWriter").basicWriter.bytes == 0 && dyn(res, "*flushWriter").basicWriter.tee == nil && implements(w, "net/http.Flusher")
+//@   ensures typeis(res, "*fancyWriter") ==> dyn(res, "*fancyWriter").basicWriter.ResponseWriter == w && !dyn(res, "*fancyWriter").basicWriter.wroteHeader && dyn(res, "*fancyWriter").basicWriter.code == 0 && dyn(res, "*fancyWriter").basicWriter.bytes == 0 && dyn(res, "*fancyWriter").basicWriter.tee == nil && implements(w, "io.ReaderFrom") && implements(w, "net/http.Flusher")
+//@   ensures typeis(res, "*basicWriter") || typeis(res, "*flushWriter") || typeis(res, "*fancyWriter")
